@@ -88,6 +88,8 @@ type Hist struct {
 	AddFn func(src domains.BlockHeaderSource) (*domains.BlockHeader, error)
 	// OnStored is called for every header the model says was stored.
 	OnStored func(h *MHeader)
+	// OnSubmit sees every submission (crashsim records H with it).
+	OnSubmit func(raw RawHeader)
 	// SkipChecks disables the per-step full comparison (engines that check at their own points).
 	SkipChecks bool
 	palette    []uint32
@@ -303,6 +305,9 @@ func answerClass(hdr *domains.BlockHeader, err error) string {
 func (h *Hist) Submit(raw RawHeader, what string) {
 	r := h.r
 	r.Step++
+	if h.OnSubmit != nil {
+		h.OnSubmit(raw)
+	}
 	hash := raw.Hash()
 	bestBefore := h.m.Best()
 	parentWasBest := bestBefore.Hash == raw.Prev
